@@ -137,11 +137,11 @@ Lemma gen_md_wf : forall m title cmd conts lines code,
 Proof.
   intros m title cmd conts lines code Ht Hcmd Hconts Hc Hcode Hg Hpe.
   assert (HS: forall first, elem_ok pe front_ok cfg_ok first
-            (EScrut (S (max_bt 2 (md_block_text cmd conts (gen_body m lines code)))) None [] (Some (cmd, conts, gen_body m lines code)) []) = true).
+            (EScrut (S (max_bt 2 (md_block_text cmd conts (gen_body m lines code)))) None [] [] (Some (cmd, conts, gen_body m lines code)) []) = true).
   { intros first. cbn [elem_ok forallb]. rewrite Hcmd, Hconts.
     assert (L3: Nat.leb 3 (S (max_bt 2 (md_block_text cmd conts (gen_body m lines code)))) = true)
       by (apply Nat.leb_le; apply fence_at_least_three).
-    rewrite L3. cbn [no_nl forallb andb].
+    rewrite L3. cbn [no_nl forallb andb]. rewrite andb_true_r.
     assert (Open: forall l, In l lines -> closes (S (max_bt 2 (md_block_text cmd conts (gen_body m lines code)))) (expectation_line m l) = false).
     { intros l Hl. apply fence_not_closed_by_body. unfold md_block_text, gen_body. apply in_or_app. right. apply in_or_app. right.
       apply in_map_iff. exists (BExp (expectation_line m l)). split; [reflexivity|].
